@@ -133,6 +133,14 @@ prop("C01",
      note=NETWORLD)
 
 
+prop("C06",
+     title="Message framing does not depend on how the byte stream is segmented",
+     rule="decoder lane (hook H4, the real decode function): for generated response messages (7-byte minimal IntermediateResponse up to 300 KB entries, minimal and random non-minimal length forms, with/without controls) every proper prefix (all of them up to 3000 bytes; header region, stride and tail beyond) must return 'need more' and leave the buffer byte-identical, and message+trailer must return exactly the message and leave exactly the trailer. connection lanes: a streaming search's item sequence (1-30 messages incl. messages larger than Framed's 8 KiB buffer) is delivered over the in-memory transport under partitions: single read, byte-by-byte, random cuts, fixed chunk sizes around 8192, every single split point (exhaustive, sequences <=700 bytes) and every pair of split points (exhaustive, <=64 bytes); after each chunk a quiescence barrier (paused clock) compares the number of items the client holds with the number of messages completely written: more = surfaced before its last byte, fewer = complete message withheld; the final item sequence and result must be identical under every partition. distinct = distinct message sequences; evidence counts prefixes, partitions and barriers checked",
+     claim="held on every generated message, prefix and partition of this run; exhaustive over single (and, for short sequences, double) split points of the generated sequences",
+     design="3/C06", technique="prefix/partition enumeration against the real decoder (H4) and the real connection, with quiescence-barrier observation of delivered-item counts",
+     note=NETWORLD)
+
+
 # ---- properties not (yet) claimed ----
 def _na():
     out = []
